@@ -391,7 +391,7 @@ def keyedRem : List Str → List KE → List KE → List KE × List KE
     | none => keyedRem ks sr orr
     | some _ => keyedRem ks (eraseKey k sr) (eraseKey k orr)
 
-theorem keysOf_length (cfg : Cfg) (p : Path) : ∀ (xs : List Val) (ks : List Str),
+theorem keysOf_length_sw (cfg : Cfg) (p : Path) : ∀ (xs : List Val) (ks : List Str),
     keysOf cfg p xs = .ok ks → ks.length = xs.length
   | [], ks, h => by simp only [keysOf] at h; cases h; rfl
   | x :: xs, ks, h => by
@@ -405,16 +405,16 @@ theorem keysOf_length (cfg : Cfg) (p : Path) : ∀ (xs : List Val) (ks : List St
       | error e => rw [hr] at h; cases h
       | ok ks' =>
         rw [hr] at h; cases h
-        simp [keysOf_length cfg p xs ks' hr]
+        simp [keysOf_length_sw cfg p xs ks' hr]
 
-theorem mkEntries_keys : ∀ (ks : List Str) (xs : List Val) (i : Nat), xs.length = ks.length →
+theorem mkEntries_keys_sw : ∀ (ks : List Str) (xs : List Val) (i : Nat), xs.length = ks.length →
     (mkEntries i ks xs).map (·.1) = ks
   | [], [], _, _ => rfl
   | [], _ :: _, _, h => by simp at h
   | _ :: _, [], _, h => by simp at h
   | k :: ks, x :: xs, i, h => by
     simp only [mkEntries, List.map_cons]
-    rw [mkEntries_keys ks xs (i + 1) (by simpa using h)]
+    rw [mkEntries_keys_sw ks xs (i + 1) (by simpa using h)]
 
 theorem eraseKey_keys (k : Str) : ∀ l : List KE, (eraseKey k l).map (·.1) = (l.map (·.1)).erase k
   | [] => rfl
@@ -549,7 +549,7 @@ theorem keyedWalk_tail_disjoint (cfg : Cfg) (p : Path) (sa oa : Val) (xs ys : Li
   have hs := keyedRem_sub ks (mkEntries 0 ks xs) (mkEntries 0 ko ys)
   refine ⟨_, _, l1, l2, h1, h2, hs.1, hs.2, keyedRem_disjoint ks _ _ ?_⟩
   intro κ _
-  rw [mkEntries_keys ks xs 0 hlen.symm]
+  rw [mkEntries_keys_sw ks xs 0 hlen.symm]
 
 set_option linter.unusedSimpArgs false
 
@@ -805,7 +805,7 @@ theorem loopG_insert (f : Str → Val → Val → Except PyErr Res) (k : Str) (v
             exact ((CorePerm.refl ra).append hc).trans (corePerm_left_comm ra r0 rb)
 
 /-- two runs agree: both fail, or both succeed with related results -/
-def RelE (P : Res → Res → Prop) : Except PyErr Res → Except PyErr Res → Prop
+def SwapRelE (P : Res → Res → Prop) : Except PyErr Res → Except PyErr Res → Prop
   | .ok a, .ok b => P a b
   | .error _, .error _ => True
   | _, _ => False
@@ -816,10 +816,10 @@ theorem dictTail_core (cfg : Cfg) (p : Path) (sa oa sa' oa' : Val) (skvs okvs : 
 
 theorem dictWalk_loop (cfg : Cfg) (p : Path) (sa oa : Val) (skvs okvs : List (Str × Val)) :
     ∀ (kvs : List (Str × Val)) (still : Bool),
-      RelE (fun r rl => CorePerm r (rl ++ dictTail cfg p sa oa skvs okvs true))
+      SwapRelE (fun r rl => CorePerm r (rl ++ dictTail cfg p sa oa skvs okvs true))
         (dictWalk cfg p sa oa skvs okvs still kvs) (loopG (entryRes cfg p) okvs kvs)
   | [], still => by
-    simp only [dictWalk, loopG, RelE]
+    simp only [dictWalk, loopG, SwapRelE]
     exact (dictTail_core ..).trans (corePerm_empty_append _).symm
   | (k, v) :: rest, still => by
     simp only [dictWalk, loopG]
@@ -835,20 +835,20 @@ theorem dictWalk_loop (cfg : Cfg) (p : Path) (sa oa : Val) (skvs okvs : List (St
         | error e =>
           rw [hr] at ih
           cases hg : loopG (entryRes cfg p) okvs rest with
-          | error e' => simp [RelE]
-          | ok rl => rw [hg] at ih; simp [RelE] at ih
+          | error e' => simp [SwapRelE]
+          | ok rl => rw [hg] at ih; simp [SwapRelE] at ih
         | ok r' =>
           rw [hr] at ih
           cases hg : loopG (entryRes cfg p) okvs rest with
-          | error e' => rw [hg] at ih; simp [RelE] at ih
+          | error e' => rw [hg] at ih; simp [SwapRelE] at ih
           | ok rl =>
             rw [hg] at ih
-            simp only [RelE] at ih ⊢
+            simp only [SwapRelE] at ih ⊢
             exact ((CorePerm.refl r0).append ih).trans (corePerm_assoc _ _ _).symm
       | descend =>
         simp only
         cases hs : sub cfg .entry (p ++ [.key k]) v w with
-        | error e => simp [RelE]
+        | error e => simp [SwapRelE]
         | ok r0 =>
           simp only
           have ih := dictWalk_loop cfg p sa oa skvs okvs rest still
@@ -856,15 +856,15 @@ theorem dictWalk_loop (cfg : Cfg) (p : Path) (sa oa : Val) (skvs okvs : List (St
           | error e =>
             rw [hr] at ih
             cases hg : loopG (entryRes cfg p) okvs rest with
-            | error e' => simp [RelE]
-            | ok rl => rw [hg] at ih; simp [RelE] at ih
+            | error e' => simp [SwapRelE]
+            | ok rl => rw [hg] at ih; simp [SwapRelE] at ih
           | ok r' =>
             rw [hr] at ih
             cases hg : loopG (entryRes cfg p) okvs rest with
-            | error e' => rw [hg] at ih; simp [RelE] at ih
+            | error e' => rw [hg] at ih; simp [SwapRelE] at ih
             | ok rl =>
               rw [hg] at ih
-              simp only [RelE] at ih ⊢
+              simp only [SwapRelE] at ih ⊢
               exact ((CorePerm.refl r0).append ih).trans (corePerm_assoc _ _ _).symm
 
 theorem dictTail_swap (cfg : Cfg) (p : Path) (hp : mirrorPath p = p) (sa oa sa' oa' : Val)
@@ -893,18 +893,18 @@ theorem dictWalk_swap_of_loop (cfg : Cfg) (p : Path) (hp : mirrorPath p = p) (sa
   have h1 := dictWalk_loop cfg p sa oa kvs kvs' kvs true
   rw [h] at h1
   cases hg : loopG (entryRes cfg p) kvs' kvs with
-  | error e => rw [hg] at h1; simp [RelE] at h1
+  | error e => rw [hg] at h1; simp [SwapRelE] at h1
   | ok rl =>
     rw [hg] at h1
-    simp only [RelE] at h1
+    simp only [SwapRelE] at h1
     obtain ⟨rl', hg', hsw⟩ := hloop rl hg
     have h2 := dictWalk_loop cfg p sa' oa' kvs' kvs kvs' true
     rw [hg'] at h2
     cases hr : dictWalk cfg p sa' oa' kvs' kvs true kvs' with
-    | error e => rw [hr] at h2; simp [RelE] at h2
+    | error e => rw [hr] at h2; simp [SwapRelE] at h2
     | ok r' =>
       rw [hr] at h2
-      simp only [RelE] at h2
+      simp only [SwapRelE] at h2
       refine ⟨r', rfl, ?_⟩
       exact ((sw_append hsw (dictTail_swap cfg p hp sa oa sa' oa' kvs kvs' true true)).congr_right h2).congr_left h1.symm
 
